@@ -3,9 +3,13 @@
 package netdrv
 
 import (
+	"bufio"
+	"encoding/json"
 	"net"
+	"os"
 	"strconv"
 	"strings"
+	"sync/atomic"
 	"testing"
 	"time"
 
@@ -33,6 +37,10 @@ type lookupRec struct {
 	Err      int           `json:"err"`
 	Elapsed  int           `json:"elapsed"`
 	Released int           `json:"released"`
+	Allowed  [][]int       `json:"allowed"` // table runs: the results Lookup.tla allows for this script (TLC-generated)
+	Table    int           `json:"table"`
+	Late     int           `json:"late"`  // largest lateness of a scripted send, microseconds
+	Tol      int           `json:"tol"`   // lateness up to which the table verdict is strict
 	Extra    []int         `json:"extra"` // describe: data of the additional (unknown) DIB of the returned response, read after the call
 	Slack    int           `json:"slack"`
 }
@@ -114,14 +122,15 @@ func idxOfName(n string) int {
 	return i
 }
 
-func runDescribe(o *codec.Out, t *testing.T, timeout time.Duration, script []scriptEntry, slack time.Duration) {
+func runDescribe(o *codec.Out, t *testing.T, timeout time.Duration, script []scriptEntry, slack time.Duration, fill func(*lookupRec)) {
 	pc, err := net.ListenUDP("udp4", &net.UDPAddr{IP: net.IPv4(127, 0, 0, 1)})
 	if err != nil {
 		t.Fatal(err)
 	}
 	defer pc.Close()
-	r := lookupRec{K: "lookup", Op: "describe", Timeout: int(timeout / time.Microsecond), Script: script, Found: []int{}, Slack: int(slack / time.Microsecond)}
+	r := lookupRec{K: "lookup", Op: "describe", Allowed: [][]int{}, Timeout: int(timeout / time.Microsecond), Script: script, Found: []int{}, Slack: int(slack / time.Microsecond)}
 	var clientAddr *net.UDPAddr
+	var late atomic.Int64
 	done := make(chan struct{})
 	go func() {
 		defer close(done)
@@ -152,6 +161,9 @@ func runDescribe(o *codec.Out, t *testing.T, timeout time.Duration, script []scr
 					if d > 0 {
 						time.Sleep(d)
 					}
+					if l := int64((time.Since(start) - time.Duration(e.D)*time.Microsecond) / time.Microsecond); l > late.Load() {
+						late.Store(l)
+					}
 					pc.WriteToUDP(frameFor(e.K, i+1), from)
 				}
 			}()
@@ -180,12 +192,16 @@ func runDescribe(o *codec.Out, t *testing.T, timeout time.Duration, script []scr
 	}
 	pc.SetReadDeadline(time.Now())
 	<-done
+	r.Late = int(late.Load())
+	if fill != nil {
+		fill(&r)
+	}
 	o.Rec(r)
 }
 
 const mcastAddr = "239.77.77.77:36711"
 
-func runDiscover(o *codec.Out, t *testing.T, timeout time.Duration, script []scriptEntry, slack time.Duration) bool {
+func runDiscover(o *codec.Out, t *testing.T, timeout time.Duration, script []scriptEntry, slack time.Duration, fill func(*lookupRec)) bool {
 	grp, _ := net.ResolveUDPAddr("udp4", mcastAddr)
 	// responder: an ordinary socket sending to the group with multicast loopback on
 	rc, err := net.ListenUDP("udp4", &net.UDPAddr{IP: net.IPv4zero})
@@ -195,7 +211,8 @@ func runDiscover(o *codec.Out, t *testing.T, timeout time.Duration, script []scr
 	defer rc.Close()
 	pc := ipv4.NewPacketConn(rc)
 	pc.SetMulticastLoopback(true)
-	r := lookupRec{K: "lookup", Op: "discover", Extra: []int{}, Timeout: int(timeout / time.Microsecond), Script: script, Found: []int{}, Slack: int(slack / time.Microsecond), Reqs: 1, HpaiOK: 1}
+	r := lookupRec{K: "lookup", Op: "discover", Allowed: [][]int{}, Extra: []int{}, Timeout: int(timeout / time.Microsecond), Script: script, Found: []int{}, Slack: int(slack / time.Microsecond), Reqs: 1, HpaiOK: 1}
+	var late atomic.Int64
 	start := time.Now()
 	stop := make(chan struct{})
 	go func() {
@@ -207,6 +224,9 @@ func runDiscover(o *codec.Out, t *testing.T, timeout time.Duration, script []scr
 				case <-stop:
 					return
 				}
+			}
+			if l := int64((time.Since(start) - time.Duration(e.D)*time.Microsecond) / time.Microsecond); l > late.Load() {
+				late.Store(l)
 			}
 			rc.WriteToUDP(frameFor(e.K, i+1), grp)
 		}
@@ -225,6 +245,10 @@ func runDiscover(o *codec.Out, t *testing.T, timeout time.Duration, script []scr
 	if c, e := net.ListenUDP("udp4", grp); e == nil {
 		r.Released = 1
 		c.Close()
+	}
+	r.Late = int(late.Load())
+	if fill != nil {
+		fill(&r)
 	}
 	o.Rec(r)
 	return true
@@ -282,7 +306,7 @@ func TestC20(t *testing.T) {
 			if sc == nil {
 				sc = []scriptEntry{}
 			}
-			runDescribe(o, t, to, sc, slack)
+			runDescribe(o, t, to, sc, slack, nil)
 			// discovery: the same arrival patterns with search responses (0..20 responders)
 			ds := make([]scriptEntry, len(sc))
 			for i, e := range sc {
@@ -301,11 +325,84 @@ func TestC20(t *testing.T) {
 				}
 			}
 			if okMC {
-				okMC = runDiscover(o, t, to, ds, slack)
+				okMC = runDiscover(o, t, to, ds, slack, nil)
 			}
 		}
 	}
 	if !okMC {
 		t.Log("multicast group not usable here: discovery half skipped")
+	}
+}
+
+type tableRow struct {
+	Op    string `json:"op"`
+	Ticks int    `json:"ticks"`
+	Arr   []struct {
+		T    int    `json:"t"`
+		Kind string `json:"kind"`
+	} `json:"arr"`
+	Allowed [][]int `json:"allowed"`
+}
+
+// TestC20Table replays the arrival scripts TLC enumerated from Lookup.tla (VERIF_TABLE, written by lib/lookupgen.py)
+// against the real DescribeTunnel / Discover: one model tick is U = 20 ms, an arrival of tick t is sent U/4 into the
+// tick. What the call returned must be one of the results the specification allows for that script (judged by
+// Trace_Codec.tla; strict only when no scripted send was more than U/8 late).
+func TestC20Table(t *testing.T) {
+	o, err := codec.Open("VERIF_OUT")
+	if err != nil {
+		t.Skip(err)
+	}
+	defer o.Close()
+	f, err := os.Open(os.Getenv("VERIF_TABLE"))
+	if err != nil {
+		t.Skip(err)
+	}
+	defer f.Close()
+	const U = 20 * time.Millisecond
+	slack := 25 * time.Millisecond
+	okMC := true
+	sc := bufio.NewScanner(f)
+	sc.Buffer(make([]byte, 1<<16), 1<<22)
+	for sc.Scan() {
+		var row tableRow
+		if json.Unmarshal(sc.Bytes(), &row) != nil {
+			continue
+		}
+		want := "descr"
+		if row.Op == "discover" {
+			want = "search"
+		}
+		var script []scriptEntry
+		for _, a := range row.Arr {
+			k := a.Kind
+			switch k {
+			case "match":
+				k = want
+			case "other":
+				k = "alien-" + want
+			}
+			script = append(script, scriptEntry{D: int((time.Duration(a.T)*U + U/4) / time.Microsecond), K: k})
+		}
+		if script == nil {
+			script = []scriptEntry{}
+		}
+		fill := func(r *lookupRec) {
+			r.Table, r.Allowed, r.Tol = 1, row.Allowed, int(U/8/time.Microsecond)
+			if r.Allowed == nil {
+				r.Allowed = [][]int{}
+			}
+			for i := range r.Allowed {
+				if r.Allowed[i] == nil {
+					r.Allowed[i] = []int{}
+				}
+			}
+		}
+		to := time.Duration(row.Ticks) * U
+		if row.Op == "describe" {
+			runDescribe(o, t, to, script, slack, fill)
+		} else if okMC {
+			okMC = runDiscover(o, t, to, script, slack, fill)
+		}
 	}
 }
